@@ -45,7 +45,7 @@ def child_env(hashseed):
     env["PYTHONPATH"] = REPO + os.pathsep + HERE
     env["LC_ALL"] = "C.UTF-8"
     env["LANG"] = "C.UTF-8"
-    env["COLUMNS"] = "200"
+    env["COLUMNS"] = "80"
     env["VERIF_REPO"] = REPO
     env.pop("GITHUB_REF", None)
     env.pop("GITHUB_HEAD_REF", None)
@@ -584,6 +584,11 @@ def main(argv):
 
 
 if __name__ == "__main__":
+    for _st in (sys.stdout, sys.stderr):
+        try:
+            _st.reconfigure(errors="backslashreplace")   # file names that are not valid UTF-8 may be quoted
+        except (AttributeError, ValueError):
+            pass
     try:
         rc = main(sys.argv[1:])
     except KeyboardInterrupt:
